@@ -20,6 +20,7 @@ EXPLANATION = (
     "output length == input length. The numerical clauses (identity at full rank, noise reduction, polynomial reproduction, constants unchanged) "
     "are NOT decided."
     ' (as built) the chunk indices run from (at most) the chunk of the first spike to the chunk of the last spike: range(A, B) with B == max // C + 1 and A in {0, min // C}.'
+    ' (D5) a work buffer allocated once and filled up to a per-iteration count is read only inside that filled part (row -1 of the buffer is stale after a short last block). (D3 vector form) slice stores [:h], blocks [first + h, first + h + n), [N - h:] cover every output once.'
 )
 ASSUMPTIONS = [
     "np.searchsorted(a, [lo, hi]) (side='left') on ascending spike samples returns the half-open range of samples in [lo, hi)",
